@@ -176,6 +176,34 @@ def scenarios():
     return [flat(s) for s in S]
 
 
+def compaction_patterns(n):
+    """every live/dead pattern of up to n slots (raw and typed table), then reserve (compaction), every id emitted, teardown"""
+    out = []
+    for k in range(1, n + 1):
+        for mask in range(1 << k):
+            for raw in (True, False):
+                ops = [["res", "1"]] if raw else []
+                ids = [0x10 + j for j in range(k)]
+                ops += [["set", "%x" % i] for i in ids]
+                ops += [["unset", "%x" % ids[j]] for j in range(k) if mask >> j & 1]
+                ops += [["res", "2"], ["res", "1"]]
+                ops += [["emit", "%x:n:0" % i, "0:-"] for i in ids + [1, 2, 3]]
+                ops += [["fini"]]
+                out.append(flat(ops))
+    return out
+
+
+SMALL_OPS = [["set", "1"], ["set", "2"], ["unset", "1"], ["cset", "1", "1"], ["cset", "2", "0"], ["res", "1"], ["clear"],
+             ["emit", "1:n:0", "1:-"], ["emit", "2:f02:0", "3:0"], ["emit", "N", "0:-"], ["serr", "1"], ["fini"]]
+
+
+def small_scope(depth):
+    """every history of exactly `depth` operations over SMALL_OPS, closed by a lookup and a NULL event"""
+    import itertools
+    for seq in itertools.product(SMALL_OPS, repeat=depth):
+        yield flat(list(seq) + [["get", "1"], ["emit", "N", "0:-"]])
+
+
 class C11(DiffProperty):
     pid = "C11"
     claimed = True
@@ -282,7 +310,9 @@ class C11(DiffProperty):
         return cl
 
     def generate(self, rng, tier):
-        cases = scenarios()
+        cases = scenarios() + compaction_patterns(6 if tier == "quick" else 8)
+        for depth in ((1, 2, 3) if tier == "quick" else (1, 2, 3, 4)):
+            cases += list(small_scope(depth))
         n = self.quick_n if tier == "quick" else self.thorough_n
         for k in range(n):
             nops = rng.choice([2, 4, 6, 8, 12, 16, 24, 40])
@@ -306,7 +336,9 @@ class C11(DiffProperty):
             "(blank / graphic / NUL separator, other message types, truncated header, missing message, 130-byte word contiguous and split), "
             "dispatch::set_error, dispatch::set_default, fallback reply context, mpt_dispatch_fini / ~dispatch and operations after it; "
             "ids from {0..5, 0xff, djb2 ids of 5 words, 6,7,8,0x7f,0x80, 2^64-2, 2^64-1}; handler returns from {0..7, 0x10000, 0x10001, "
-            "-1,-2,-16,-128,-129,-200} and optionally rewrites ev->id; 15 hand-written scenarios + random histories of 2..40 operations; "
+            "-1,-2,-16,-128,-129,-200} and optionally rewrites ev->id; 15 hand-written scenarios, every live/dead pattern of up to 6 (thorough 8) "
+            "slots on a raw and on a typed table followed by reserve/emit/fini, EVERY history of up to 3 (thorough 4) operations over 12 "
+            "fixed operations (exhaustive), + random histories of 2..40 operations aimed at the ids believed registered; "
             "a case is non-trivial when it contains an operation (every case does); distinct = distinct case text")
     modelled = ("mptcore/event/{command_get,command_set,command_reserve,command_traits,dispatch_set,dispatch_emit,dispatch_hash,"
                 "dispatch_finit}.c, misc/hash_djb2.c and the dispatch/command::array members of mpt++/event.cpp transcribed in "
